@@ -775,6 +775,49 @@ def unroll_literal_loops(fn: ast.FunctionDef) -> tuple[ast.FunctionDef, int]:
     return new, count
 
 
+def expand_literal_quantifiers(fn: ast.FunctionDef, module_assigns: dict[str, ast.AST]) -> tuple[ast.FunctionDef, int]:
+    """any(P(t) for t in T) / all(...) where T is a literal tuple / list of at most 6 plain names or attribute chains,
+    written inline or bound once at module level:  ->  P(t1) or P(t2) or ...  (and for all).  Same evaluation order and
+    short-circuiting."""
+    count = 0
+
+    def literal(it: ast.expr):
+        if isinstance(it, ast.Name) and it.id in module_assigns:
+            it = module_assigns[it.id]
+        if isinstance(it, (ast.Tuple, ast.List)) and 1 <= len(it.elts) <= 6 and all(_pure_chain(e) or isinstance(e, ast.Constant) for e in it.elts):
+            return it.elts
+        return None
+
+    class T(ast.NodeTransformer):
+        def visit_Call(self, node: ast.Call):
+            nonlocal count
+            self.generic_visit(node)
+            if not (isinstance(node.func, ast.Name) and node.func.id in ("any", "all") and len(node.args) == 1 and not node.keywords and isinstance(node.args[0], ast.GeneratorExp)):
+                return node
+            g = node.args[0]
+            if len(g.generators) != 1 or g.generators[0].ifs or not isinstance(g.generators[0].target, ast.Name):
+                return node
+            elts = literal(g.generators[0].iter)
+            if elts is None:
+                return node
+            var = g.generators[0].target.id
+            vals = [_Renamer({var: e}, {}).visit(copy.deepcopy(g.elt)) for e in elts]
+            count += 1
+            if len(vals) == 1:
+                return ast.copy_location(vals[0], node)
+            return ast.copy_location(ast.BoolOp(op=ast.Or() if node.func.id == "any" else ast.And(), values=vals), node)
+
+    if not any(isinstance(n, ast.Call) and isinstance(n.func, ast.Name) and n.func.id in ("any", "all") for n in ast.walk(fn)):
+        return fn, 0
+    new = copy.deepcopy(fn) if not getattr(fn, "_xsa_copy", False) else fn
+    new = T().visit(new)
+    if count == 0:
+        return fn, 0
+    ast.fix_missing_locations(new)
+    new._xsa_copy = True  # type: ignore[attr-defined]
+    return new, count
+
+
 def inline(fi) -> ast.AST:
     """Normalised copy of fi.raw_node: private helpers inlined, field aliases propagated (the node itself when
     nothing applies)."""
@@ -785,6 +828,7 @@ def inline(fi) -> ast.AST:
     new, _ = index_loops_to_zip(new)
     new, _ = lockstep_to_zip(new)
     new, _ = unroll_literal_loops(new)
+    new, _ = expand_literal_quantifiers(new, getattr(fi.module, "assigns", {}))
     return new
 
 
